@@ -27,17 +27,26 @@ theorem fifo_queue (qcap : Nat) (s : QSys) (h : QReachable qcap s) (g : Nat) :
   have inv := qinv_reachable qcap s h
   exact (numbered_increasing s.posted inv.numbered g).sublist ((inv.sub.filter _).map _)
 
-/-- A blocking post is never dropped: once `PostEventBlocking` has returned, the event is in the
-queue or has been delivered. -/
-theorem blocking_post_never_dropped (qcap : Nat) (s : QSys) (h : QReachable qcap s) :
-    ∀ e ∈ s.posted, e.blocking = true → e ∈ s.delivered ++ s.queue :=
-  (qinv_reachable qcap s h).blocking
+/-- A blocking post is never dropped while the session runs (until `Close` has completed and closed
+`chQuit`): once `PostEventBlocking` has returned, the event is in the queue or has been delivered,
+and nothing in `dropped` is a blocking post. -/
+theorem blocking_post_never_dropped (qcap : Nat) (s : QSys) (h : QReachable qcap s) (hq : s.quit = false) :
+    (∀ e ∈ s.posted, e.blocking = true → e ∈ s.delivered ++ s.queue) ∧ ∀ e ∈ s.dropped, e.blocking = false :=
+  ⟨(qinv_reachable qcap s h).blocking hq, (qinv_reachable qcap s h).droppedNB hq⟩
+
+/-- Contrapositive, for every reachable state: a blocking post that was dropped was dropped after
+`Close` had completed (F53 repaired: `PostEventBlocking` gives up only on the closed `chQuit`). -/
+theorem blocking_post_dropped_only_after_quit (qcap : Nat) (s : QSys) (h : QReachable qcap s)
+    (e : Ev) (he : e ∈ s.dropped) (hb : e.blocking = true) : s.quit = true := by
+  cases hq : s.quit with
+  | true => rfl
+  | false => have := (qinv_reachable qcap s h).droppedNB hq e he; simp [hb] at this
 
 /-- … and it is delivered after at most `queue.length` further receives. -/
-theorem blocking_post_delivered (qcap : Nat) (s : QSys) (h : QReachable qcap s) :
+theorem blocking_post_delivered (qcap : Nat) (s : QSys) (h : QReachable qcap s) (hq : s.quit = false) :
     ∃ s', qrun qcap s (List.replicate s.queue.length .consume) = some s' ∧ s'.queue = [] ∧
       ∀ e ∈ s.posted, e.blocking = true → e ∈ s'.delivered := by
-  have hb := (qinv_reachable qcap s h).blocking
+  have hb := (qinv_reachable qcap s h).blocking hq
   have key : ∀ (q : List Ev) (t : QSys), t.queue = q →
       ∃ t', qrun qcap t (List.replicate q.length .consume) = some t' ∧ t'.queue = [] ∧
         t'.delivered = t.delivered ++ q ∧ t'.posted = t.posted := by
